@@ -1086,3 +1086,22 @@ Section Complete.
     apply in_map_iff. exists d. split; [reflexivity|]. apply filter_In. split; [exact Hin | apply N.eqb_refl].
   Qed.
 End Complete.
+
+(* ------------------------------------------------------------------------------------------- *)
+(* "No slot twice", from a freshly built controller. *)
+Theorem no_slot_twice : forall shadowed c,
+  0 < ct_spe (c_ct c) -> bounded c 0 ->
+  forall h ae ops,
+    hist_ok shadowed c 0 (init_state h ae) ops ->
+    let st := run shadowed c (init_state h ae) ops in
+    NoDup (att_slots st) /\ NoDup (prop_slots st) /\
+    (forall s, In s (att_slots st) \/ In s (prop_slots st) -> s <= st_cur st) /\
+    (forall s, tget (st_jobs st) (JAtt s) <> None -> ~ In s (att_slots st)) /\
+    (forall s, tget (st_jobs st) (JProp s) <> None -> ~ In s (prop_slots st)).
+Proof.
+  intros shadowed c Hspe B h ae ops H. cbv zeta.
+  pose proof (inv_run shadowed c Hspe ops 0 (init_state h ae) (inv_init c 0 h ae B) H) as I.
+  destruct I as [a1 a2 an p1 p2 pn p4 p3 b].
+  repeat split; try assumption.
+  intros s [Hs|Hs]; [apply a1 | apply p1]; exact Hs.
+Qed.
